@@ -1,11 +1,12 @@
 // F23 / F24 triage (C04).  Drives the real kv store + metricsdata merger through flush / compact / ForceRollup steps and
 // compares every target (month 5m, year 1h) family with an independently computed model (the harness — model, flush
 // helper, read-back — is the one a seeding sub-agent wrote for its C04 demonstrations; the two scenarios are mine).
-//  F23: (*family).rollup ignores the result of the SOURCE family's commitEditLog and goes on to clean the targets'
-//       reference records: after a failed source commit the files are still listed as to-be-rolled-up, the targets no
-//       longer remember they hold them, and the next rollup merges them a second time (sums doubled).
-//  F24: a source file that was compacted out of level 0 before the rollup ran is looked up only in level 0 of the
-//       current version, silently skipped, and then marked as rolled up: its data never reaches the targets.
+//
+//	F23: (*family).rollup ignores the result of the SOURCE family's commitEditLog and goes on to clean the targets'
+//	     reference records: after a failed source commit the files are still listed as to-be-rolled-up, the targets no
+//	     longer remember they hold them, and the next rollup merges them a second time (sums doubled).
+//	F24: a source file that was compacted out of level 0 before the rollup ran is looked up only in level 0 of the
+//	     current version, silently skipped, and then marked as rolled up: its data never reaches the targets.
 package main
 
 import (
